@@ -2,6 +2,7 @@ package rules
 
 import (
 	"fmt"
+	"go/constant"
 	"go/token"
 	"go/types"
 	"sort"
@@ -577,4 +578,273 @@ func (t *taintRun) elemsOfVariadic(v ssa.Value) taintK {
 		}
 	}
 	return best
+}
+
+// c08kindEstablished (C08.R16, round 7): "no input makes the unmarshaller panic" — reflect.Type.Key panics unless the
+// type's kind is Map. Every call of it in the package is made on a type whose Kind() == reflect.Map was established
+// for that very value: by a dominating comparison in the same function, or — when the receiver is a parameter — at every
+// call site of the function in the package, for the argument passed (two levels). Testing the kind of Deref(t) and then
+// handing on t itself (a pointer type for a `*map[…]…` member) is the mistake this catches: the callee's t.Key() panics
+// for a member the dispatch took for a map.
+func c08kindEstablished(c *Ctx, pkg string) {
+	rule := "C08.R16"
+	funcs := c.P.AllFuncs(pkg)
+	callers := map[*ssa.Function][]*ssa.Call{}
+	for _, f := range funcs {
+		for _, b := range f.Blocks {
+			for _, ins := range b.Instrs {
+				if call, ok := ins.(*ssa.Call); ok {
+					if cal := call.Call.StaticCallee(); cal != nil {
+						callers[cal] = append(callers[cal], call)
+					}
+				}
+			}
+		}
+	}
+	n := 0
+	for _, f := range funcs {
+		for _, b := range f.Blocks {
+			for _, ins := range b.Instrs {
+				call, ok := ins.(*ssa.Call)
+				if !ok || !call.Call.IsInvoke() || call.Call.Method.Name() != "Key" || !strings.HasSuffix(typeString(call.Call.Value.Type()), "reflect.Type") {
+					continue
+				}
+				n++
+				name := funcDisplay(f) + "#Key@" + strings.TrimPrefix(c.P.Pos(call.Pos()), "core/mapping/")
+				why := kindIsMap(call.Call.Value, b, callers, 0)
+				text := "reflect.Type.Key is called only on a type whose Kind() == reflect.Map was established for that same value (in the function, or at every call site for the argument passed)"
+				if why == "" {
+					c.R.Hold(rule, funcDisplay(f)+"#Key", text, 1)
+				} else {
+					_ = name
+					c.R.Fail(rule, funcDisplay(f)+"#Key", text, c.P.Pos(call.Pos()), why, nil)
+				}
+			}
+		}
+	}
+	if n == 0 {
+		c.R.Undecided(rule, pkg+"#Key-sites", "the calls of reflect.Type.Key are recognised", "none found")
+	}
+}
+
+// kindIsMap returns "" when v's kind is established as Map at block b, else the reason.
+func kindIsMap(v ssa.Value, b *ssa.BasicBlock, callers map[*ssa.Function][]*ssa.Call, depth int) string {
+	if condsEstablishMap(v, b, 0) {
+		return ""
+	}
+	// reflect.Value.Type() of a value whose kind is established
+	if call, ok := v.(*ssa.Call); ok && !call.Call.IsInvoke() {
+		if cal := call.Call.StaticCallee(); cal != nil && cal.Name() == "Type" && cal.Signature.Recv() != nil && len(call.Call.Args) == 1 {
+			if condsEstablishMap(call.Call.Args[0], b, 0) {
+				return ""
+			}
+		}
+	}
+	// reflect.TypeOf(x) of a value that is a map
+	if call, ok := v.(*ssa.Call); ok && !call.Call.IsInvoke() {
+		if cal := call.Call.StaticCallee(); cal != nil && cal.Pkg != nil && cal.Pkg.Pkg.Path() == "reflect" && cal.Name() == "TypeOf" && len(call.Call.Args) == 1 {
+			if valueIsMap(call.Call.Args[0], b, callers, depth) {
+				return ""
+			}
+			return fmt.Sprintf("reflect.TypeOf(%s): the value is not known to be a map here", call.Call.Args[0].Name())
+		}
+	}
+	p, ok := v.(*ssa.Parameter)
+	if !ok || depth >= 2 {
+		return fmt.Sprintf("the kind of %s is not established as Map here", v.Name())
+	}
+	fn := p.Parent()
+	idx := -1
+	for i, q := range fn.Params {
+		if q == p {
+			idx = i
+		}
+	}
+	sites := callers[fn]
+	if idx < 0 || len(sites) == 0 {
+		return fmt.Sprintf("parameter %s of %s: no call site to establish its kind", p.Name(), funcDisplay(fn))
+	}
+	for _, s := range sites {
+		if idx >= len(s.Call.Args) {
+			continue
+		}
+		if why := kindIsMap(s.Call.Args[idx], s.Block(), callers, depth+1); why != "" {
+			return fmt.Sprintf("%s passes %s for parameter %s of %s without having established that value's kind as Map (the kind of another value, e.g. of its dereferenced type, does not count): %s", funcDisplay(s.Parent()), s.Call.Args[idx].Name(), p.Name(), funcDisplay(fn), why)
+		}
+	}
+	return ""
+}
+
+// condsEstablishMap: some condition known to hold at b says Kind(v) == reflect.Map.
+func condsEstablishMap(v ssa.Value, b *ssa.BasicBlock, depth int) bool {
+	kindOf := func(x ssa.Value) ssa.Value {
+		call, ok := x.(*ssa.Call)
+		if !ok {
+			return nil
+		}
+		if call.Call.IsInvoke() && call.Call.Method.Name() == "Kind" {
+			return call.Call.Value
+		}
+		if cal := call.Call.StaticCallee(); cal != nil && cal.Name() == "Kind" && len(call.Call.Args) == 1 {
+			return call.Call.Args[0]
+		}
+		return nil
+	}
+	isMapConst := func(x ssa.Value) bool {
+		k, ok := x.(*ssa.Const)
+		if !ok || k.Value == nil || !strings.HasSuffix(typeString(k.Type()), "reflect.Kind") {
+			return false
+		}
+		n, exact := constant.Int64Val(k.Value)
+		return exact && n == 21 // reflect.Map
+	}
+	for _, eq := range knownEqualities(b) {
+		if (kindOf(eq[0]) == v && isMapConst(eq[1])) || (kindOf(eq[1]) == v && isMapConst(eq[0])) {
+			return true
+		}
+	}
+	return false
+}
+
+// valueIsMap: the dynamic type of x is a map at block b — by its static type, by a dominating type assertion or kind
+// test of reflect.TypeOf(x), or (for a parameter) at every call site.
+func valueIsMap(x ssa.Value, b *ssa.BasicBlock, callers map[*ssa.Function][]*ssa.Call, depth int) bool {
+	isMapT := func(t types.Type) bool { _, ok := t.Underlying().(*types.Map); return ok }
+	if isMapT(x.Type()) {
+		return true
+	}
+	if mi, ok := x.(*ssa.MakeInterface); ok && isMapT(mi.X.Type()) {
+		return true
+	}
+	// dominating `_, ok := x.(map…)` / type-switch case, or TypeOf(x).Kind() == Map
+	for _, cnd := range knownConds(b, 0) {
+		if ex, ok := cnd.(*ssa.Extract); ok && ex.Index == 1 {
+			if ta, ok := ex.Tuple.(*ssa.TypeAssert); ok && ta.X == x && isMapT(ta.AssertedType) {
+				return true
+			}
+		}
+		if bo, ok := cnd.(*ssa.BinOp); ok && bo.Op == token.EQL {
+			for _, side := range []ssa.Value{bo.X, bo.Y} {
+				kc, ok := side.(*ssa.Call)
+				if !ok || !kc.Call.IsInvoke() || kc.Call.Method.Name() != "Kind" {
+					continue
+				}
+				tc, ok := kc.Call.Value.(*ssa.Call)
+				if !ok || tc.Call.IsInvoke() {
+					continue
+				}
+				if cal := tc.Call.StaticCallee(); cal != nil && cal.Name() == "TypeOf" && len(tc.Call.Args) == 1 && tc.Call.Args[0] == x {
+					other := bo.Y
+					if side == bo.Y {
+						other = bo.X
+					}
+					if k, ok := other.(*ssa.Const); ok && k.Value != nil {
+						if n, exact := constant.Int64Val(k.Value); exact && n == 21 {
+							return true
+						}
+					}
+				}
+			}
+		}
+	}
+	p, ok := x.(*ssa.Parameter)
+	if !ok || depth >= 3 {
+		return false
+	}
+	fn := p.Parent()
+	idx := -1
+	for i, q := range fn.Params {
+		if q == p {
+			idx = i
+		}
+	}
+	sites := callers[fn]
+	if idx < 0 || len(sites) == 0 {
+		return false
+	}
+	for _, s := range sites {
+		if idx >= len(s.Call.Args) || !valueIsMap(s.Call.Args[idx], s.Block(), callers, depth+1) {
+			return false
+		}
+	}
+	return true
+}
+
+// knownConds: the atomic conditions known to be true on entry to block b — the conditions of the dominating
+// conditionals on whose true side b lies; a conjunction `a && b` (a φ of false and b) contributes b and whatever is
+// known where b was evaluated (which includes a).
+func knownConds(b *ssa.BasicBlock, depth int) []ssa.Value {
+	pos, _ := knownCondsBoth(b, depth)
+	return pos
+}
+
+// knownEqualities: the (x, y) pairs known to be equal on entry to b — `x == y` on a true side, `x != y` on a false side.
+func knownEqualities(b *ssa.BasicBlock) [][2]ssa.Value {
+	var out [][2]ssa.Value
+	pos, neg := knownCondsBoth(b, 0)
+	for _, c := range pos {
+		if bo, ok := c.(*ssa.BinOp); ok && bo.Op == token.EQL {
+			out = append(out, [2]ssa.Value{bo.X, bo.Y})
+		}
+	}
+	for _, c := range neg {
+		if bo, ok := c.(*ssa.BinOp); ok && bo.Op == token.NEQ {
+			out = append(out, [2]ssa.Value{bo.X, bo.Y})
+		}
+	}
+	return out
+}
+
+func knownCondsBoth(b *ssa.BasicBlock, depth int) (out []ssa.Value, negs []ssa.Value) {
+	if b == nil || depth > 6 {
+		return nil, nil
+	}
+	var flat func(c ssa.Value, d int) bool
+	flat = func(c ssa.Value, d int) bool {
+		phi, ok := c.(*ssa.Phi)
+		if !ok {
+			out = append(out, c)
+			return true
+		}
+		if d > 6 {
+			return false
+		}
+		for _, e := range phi.Edges {
+			if k, isK := e.(*ssa.Const); isK && k.Value != nil && constant.BoolVal(k.Value) {
+				return false // a disjunction: nothing certain
+			}
+		}
+		for i, e := range phi.Edges {
+			if _, isK := e.(*ssa.Const); isK {
+				continue
+			}
+			n := len(out)
+			if !flat(e, d+1) {
+				out = out[:n]
+				continue
+			}
+			p2, n2 := knownCondsBoth(phi.Block().Preds[i], depth+1)
+			out = append(out, p2...)
+			negs = append(negs, n2...)
+		}
+		return true
+	}
+	for d := b; d != nil; d = d.Idom() {
+		id := d.Idom()
+		if id == nil || len(id.Instrs) == 0 {
+			continue
+		}
+		br, ok := id.Instrs[len(id.Instrs)-1].(*ssa.If)
+		if !ok {
+			continue
+		}
+		if id.Succs[0].Dominates(b) && len(id.Succs[0].Preds) == 1 {
+			flat(br.Cond, 0)
+		} else if id.Succs[1].Dominates(b) && len(id.Succs[1].Preds) == 1 {
+			if _, isPhi := br.Cond.(*ssa.Phi); !isPhi {
+				negs = append(negs, br.Cond)
+			}
+		}
+	}
+	return out, negs
 }
